@@ -190,6 +190,11 @@ def mkPipeline (progs : List SProg) (leak : Bool := false) : PSys :=
 def penabled (c : PCfg) (s : PSys) : List Nat :=
   (List.range s.stages.length).filter fun i => (stageStep c s i).isSome
 
+def pickStage (choices : List Nat) (i : Nat) (is : List Nat) : Nat :=
+  match choices with
+  | [] => i
+  | k :: _ => (i :: is).getD (k % (is.length + 1)) i
+
 /-- runs under the scheduler `choices` (index into `penabled`, modulo its length) -/
 def prun (c : PCfg) : Nat → List Nat → PSys → PSys
   | 0, _, s => s
@@ -197,10 +202,7 @@ def prun (c : PCfg) : Nat → List Nat → PSys → PSys
     match penabled c s with
     | [] => s
     | i :: is =>
-      let pick := match choices with
-        | [] => i
-        | k :: _ => (i :: is).getD (k % (is.length + 1)) i
-      match stageStep c s pick with
+      match stageStep c s (pickStage choices i is) with
       | some s' => prun c fuel choices.tail s'
       | none => s
 
